@@ -105,11 +105,13 @@ open(os.path.join(ROOT2, 'a.txt'), 'wb').write(b'second-root-alpha')
 open(os.path.join(ROOT2, 'only2.txt'), 'wb').write(b'only in root2')
 open(os.path.join(_TMP, 'top', 'secret.txt'), 'wb').write(b'SECRET-ABOVE')
 open(os.path.join(_TMP, 'secret2.txt'), 'wb').write(b'SECRET-ABOVE-2')
+os.makedirs(os.path.join(_TMP, 'top', 'root_private'), exist_ok=True)
+open(os.path.join(_TMP, 'top', 'root_private', 'secret.txt'), 'wb').write(b'SECRET-SIBLING-WITH-ROOT-PREFIX')
 SEGS = ['a.txt', 'sub', 'b.bin', 'deep', 'c', '.', '..', '', '...', 'secret.txt', 'top', 'root', 'etc', '..hidden', 'root2', _TMP.strip('/').split('/')[0],
-        'secret2.txt', 'sp ace.txt']
+        'secret2.txt', 'sp ace.txt', 'root_private']
 NSEG = len(SEGS)
 # the 9 segments that matter most, for 3- and 4-segment requests in the quick tier
-CORE = [0, 1, 2, 5, 6, 7, 9, 11, 15]
+CORE = [0, 1, 2, 5, 6, 7, 9, 11, 18]
 _STATIC = StaticApplication([TREE_ROOT, ROOT2])
 _APP = Application([('/static/', _STATIC)])
 _STRICT = Application([('/s/', _STATIC)], slash_mode='strict')
